@@ -180,6 +180,10 @@ var ErrMissingSession = errors.New("missing session")
 // ErrTokenTimeout is returned if the client reaches the token timeout.
 var ErrTokenTimeout = errors.New("token timeout")
 
+// ErrPacketIDsExhausted is returned if all packet ids are in use by outgoing
+// packets that have not been acknowledged yet.
+var ErrPacketIDsExhausted = errors.New("packet ids exhausted")
+
 // ErrClientDisconnected is returned if a client disconnects cleanly.
 var ErrClientDisconnected = errors.New("client disconnected")
 
@@ -403,7 +407,10 @@ func (c *Client) dequeuer() error {
 
 		// set packet id
 		if publish.Message.QOS > 0 {
-			publish.ID = c.session.NextID()
+			publish.ID, err = c.nextID()
+			if err != nil {
+				return c.die(SessionError, err)
+			}
 		}
 
 		// store packet if at least qos 1
@@ -438,6 +445,26 @@ func (c *Client) dequeuer() error {
 
 		c.backend.Log(MessageForwarded, c, nil, msg, nil)
 	}
+}
+
+// nextID returns the next packet id that is not in use by a stored outgoing
+// packet. The counter wraps around after 65535 ids, but an id may only be
+// reused once the flow of the packet that carries it has been completed.
+func (c *Client) nextID() (packet.ID, error) {
+	for i := 0; i < 65535; i++ {
+		// get next id
+		id := c.session.NextID()
+
+		// check if id is still in use
+		pkt, err := c.session.LookupPacket(session.Outgoing, id)
+		if err != nil {
+			return 0, err
+		} else if pkt == nil {
+			return id, nil
+		}
+	}
+
+	return 0, ErrPacketIDsExhausted
 }
 
 // packet acker
